@@ -168,6 +168,7 @@ def check(ctx):
                        function=ent.func.qual, construct="%s/re-encode" % ent.func.qual,
                        msg="request is encoded again on retry: content/flags may differ from the first transmission")
         # ---- DUP / contexts for every write of stored bytes --------------------------------
+        resent_kinds, v31_patched = {}, set()
         for tr in contexts(cat):
             for region in region_events(tr.path):
                 flat_region = region
@@ -208,6 +209,10 @@ def check(ctx):
                             ok = len(pats) == 0 if False else (len(pats) == 0)
                             if pats:
                                 ok = False
+                    if not unconditional and exp_dup == 8:
+                        resent_kinds.setdefault(kind, e)
+                        if vcond is True and len(pats) == 1 and pats[0].a["val"] == ("const", 8):
+                            v31_patched.add(kind)
                     ctx.ob("R-DUP", "%s %s: DUP patch %s (%s)" % (cq, kind, "always" if unconditional else
                            ("only under protocol 3.1" + ("" if vcond is None else " [v31=%s]" % vcond)), tr.label()), ok,
                            where=where(pats[0]) if pats else where(e), function=e.func,
@@ -306,6 +311,12 @@ def check(ctx):
                     ctx.ob("R-DELAY", "%s interval created with the configured initial timeout (%s)" % (cq, short(e.func)),
                            init == ("attr", SELF, "_initialT"), where=where(e), function=e.func, construct="%s/interval-initial" % e.func,
                            nontrivial=False, msg="interval object created with initial=%s" % show(init))
+        # "under protocol 3.1 repeats of SUBSCRIBE, UNSUBSCRIBE and PUBREL also carry DUP": each of these kinds the class re-sends has a
+        # re-send path taken under version == 3.1 on which the stored packet is patched (a test that can never be true patches nowhere)
+        for kind, e0 in sorted(resent_kinds.items()):
+            ctx.ob("R-DUP", "%s %s: a repeat under protocol 3.1 carries DUP" % (cq, kind), kind in v31_patched, where=where(e0), function=e0.func,
+                   construct="%s/dup-v31-missing/%s" % (e0.func, kind),
+                   msg="no re-send path of a %s sets DUP under protocol 3.1: the repeats go out byte-identical to the first transmission" % kind)
     # ---- R-SINGLE: one live retry timer per pending request, none after it is settled or its connection is lost -----------
     # ("written again every time its retry timer expires, for as long as it stays unacknowledged ... nothing is repeated except on timer
     # expiry or resume": a leaked or doubled timer repeats a packet early or after its acknowledgement)
